@@ -246,6 +246,28 @@ Theorem C07_l2tp_ppp_dispatch_total : forall cfg frame, is_crash (l2tp_dispatch_
 Proof. exact l2tp_dispatch_ppp_total. Qed.
 Print Assumptions C07_l2tp_ppp_dispatch_total.
 
+(* ---- "malformed input is ... ignored": a hostile datagram from the RADIUS server's address must not consume the
+   outstanding request (plugins/auth/radius/transport.go readLoop: verify first, clear the slot after) ---- *)
+Theorem C07_radius_junk_datagrams_ignored :
+  forall ds p, forallb (fun d => negb (is_genuine d)) ds = true -> rad_run false p ds = (p, []).
+Proof. exact rad_junk_ignored. Qed.
+Print Assumptions C07_radius_junk_datagrams_ignored.
+Theorem C07_radius_genuine_reply_survives_junk :
+  forall junk id rest p, forallb (fun d => negb (is_genuine d)) junk = true -> pend_has id p = true ->
+  exists os, snd (rad_run false p (junk ++ DGenuine id :: rest)) = id :: os /\
+             fst (rad_run false p (junk ++ [DGenuine id])) = pend_del id p.
+Proof. exact rad_genuine_after_junk. Qed.
+Print Assumptions C07_radius_genuine_reply_survives_junk.
+Theorem C07_radius_claim_before_verify_refuted :
+  rad_run true [1] [DJunk 1; DGenuine 1] = ([], []) /\ rad_run false [1] [DJunk 1; DGenuine 1] = ([], [1]).
+Proof. exact rad_claim_first_refuted. Qed.
+Print Assumptions C07_radius_claim_before_verify_refuted.
+Example C07_radius_junk_nonvacuous :
+  forallb (fun d => negb (is_genuine d)) (dgrams_of [0; 1; 2; 3; 4; 5; 6]) = true /\ pend_has 1 [1] = true /\
+  snd (rad_run false [1] (dgrams_of [0; 6; 2; 9; 0])) = [1].
+Proof. exact rad_nonvacuous. Qed.
+Print Assumptions C07_radius_junk_nonvacuous.
+
 (* ---- "never make a handler run without bound": bounded worker pools / hand-off queues on the receive path
    (pppoe dhcp6Sem under the session lock, pppoe raKicks, ipoe l2gwChan), acquired with a non-blocking select ---- *)
 (* whatever the history of arrivals and worker completions, and for every pool size, no handler call blocks *)
